@@ -60,7 +60,30 @@ type Op struct {
 	Sub    []Op   `json:"sub,omitempty"`
 	Commit bool   `json:"commit,omitempty"`
 	StepIn bool   `json:"step,omitempty"` // Txn: scheduling point between sub operations
+	End    int    `json:"end,omitempty"`  // Txn: how it ends (EndDefault = per Commit flag)
 }
+
+// Transaction endings.
+const (
+	EndDefault = iota // unmanaged: Commit or Abort per the Commit flag
+	EndCommit
+	EndAbort
+	EndUpdatesNil   // managed, function returns nil (commit)
+	EndUpdatesErr   // managed, function returns an error (abort)
+	EndUpdatesPanic // managed, function panics (abort, panic propagates)
+)
+
+func (o Op) commits() bool {
+	switch o.End {
+	case EndCommit, EndUpdatesNil:
+		return true
+	case EndAbort, EndUpdatesErr, EndUpdatesPanic:
+		return false
+	}
+	return o.Commit
+}
+
+type injectedPanic struct{}
 
 func (o Op) String() string {
 	switch o.Kind {
@@ -73,9 +96,12 @@ func (o Op) String() string {
 		}
 		end := ""
 		if o.Kind == Txn {
-			end = " abort"
-			if o.Commit {
-				end = " commit"
+			end = [...]string{"", " Commit", " Abort", " Updates->nil", " Updates->error", " Updates->panic"}[o.End]
+			if o.End == EndDefault {
+				end = " abort"
+				if o.Commit {
+					end = " commit"
+				}
 			}
 		}
 		return fmt.Sprintf("%s{%s}%s", o.Kind, strings.Join(parts, ";"), end)
@@ -257,9 +283,7 @@ func Do(f *fox.Router, o Op) Out {
 		return out
 	case Txn:
 		var out Out
-		txn := f.Txn(true)
-		func() {
-			defer txn.Abort()
+		body := func(txn *fox.Txn) {
 			for _, s := range o.Sub {
 				if o.StepIn {
 					vs.Step("txn")
@@ -274,10 +298,41 @@ func Do(f *fox.Router, o Op) Out {
 			if o.StepIn {
 				vs.Step("txn-end")
 			}
-			if o.Commit {
-				txn.Commit()
-			}
-		}()
+		}
+		switch o.End {
+		case EndUpdatesNil, EndUpdatesErr, EndUpdatesPanic:
+			func() {
+				defer func() {
+					if p := recover(); p != nil {
+						if _, ok := p.(injectedPanic); !ok {
+							panic(p)
+						}
+					}
+				}()
+				err := f.Updates(func(txn *fox.Txn) error {
+					body(txn)
+					switch o.End {
+					case EndUpdatesErr:
+						return errors.New("injected")
+					case EndUpdatesPanic:
+						panic(injectedPanic{})
+					}
+					return nil
+				})
+				if (err != nil) != (o.End == EndUpdatesErr) {
+					out.Err = "updates-returned-" + fmt.Sprint(err)
+				}
+			}()
+		default:
+			txn := f.Txn(true)
+			func() {
+				defer txn.Abort()
+				body(txn)
+				if o.commits() {
+					txn.Commit()
+				}
+			}()
+		}
 		return out
 	}
 	panic("bad op " + o.Kind)
@@ -348,7 +403,7 @@ func Apply(s State, o Op) (Out, State) {
 			so, t = Apply(t, sub)
 			out.Sub = append(out.Sub, so)
 		}
-		if o.Commit {
+		if o.commits() {
 			return out, t
 		}
 		return out, s
